@@ -277,6 +277,11 @@ func (a *jwtAuthenticator) getCacheTTL(key *jose.JSONWebKey) time.Duration {
 		func() time.Duration { return *a.ttl },
 		func() time.Duration { return defaultJWTAuthenticatorTTL })
 
+	// the certificate is already expired or expires within the leeway: nothing to be cached, whatever has been configured
+	if len(key.Certificates) != 0 && certTTL == 0 {
+		return 0
+	}
+
 	switch {
 	case configuredTTL == 0 && certTTL == 0:
 		return 0
